@@ -61,20 +61,24 @@ def check(spec):
     if name in ("combine_global_phases", "remove_barrier"):
         mode = "exact"
     feats = {"pass": name}
+    # passes that fuse rotations go through fuse_rot_angles, documented as numerically unstable at its singular points (fused theta
+    # near 0 or pi): arccos of a float within 1e-16 of 1 is only accurate to sqrt(eps) ~ 1.5e-8, so these passes are compared at
+    # 1e-7 (a seeded wrong fusion is off by O(1)); every other pass stays at 1e-8
+    TOL = 1e-7 if name in ("merge_rotations", "single_qubit_fusion", "compile", "undo_swaps+fusion") else 1e-8
     if mode in ("phase", "exact", "perm"):
         U0 = sim.unitary(tape0.operations, order)
         U1 = sim.unitary(out.operations, order)
         if mode == "exact" or name == "rowcol":
-            ok = close(U1, U0, 1e-8)
+            ok = close(U1, U0, TOL)
         else:
-            ok = sim.allclose_phase(U1, U0, 1e-8)
+            ok = sim.allclose_phase(U1, U0, TOL)
         if not ok:
             raise Viol("unitary-changed", f"{name} opts={spec['opts']} in={spec['ops']} out={[str(o) for o in out.operations]}",
                        sig=name, features=feats)
     else:
         s0 = sim.run_ops(tape0.operations, order)
         s1 = sim.run_ops(out.operations, order)
-        if not sim.allclose_phase(s1, s0, 1e-8):
+        if not sim.allclose_phase(s1, s0, TOL):
             raise Viol("state-changed", f"{name} in={spec['ops']} out={[str(o) for o in out.operations]}", sig=name, features=feats)
     if len(out.measurements) != len(tape.measurements):
         raise Viol("measurements-changed", name, sig=name, features=feats)
@@ -84,7 +88,7 @@ def check(spec):
     if len(tape.measurements) == 1:
         r1 = (r1,)
     for a, b in zip(r0, r1):
-        if not close(np.asarray(b), np.asarray(a), 1e-8):
+        if not close(np.asarray(b), np.asarray(a), TOL):
             raise Viol("result-changed", f"{name} diff={maxdiff(np.asarray(b), np.asarray(a))} in={spec['ops']} meas={spec['meas']}", sig=name, features=feats)
     fired = len(out.operations) != len(in_ops) or any(
         not qp.equal(a, b) for a, b in zip(out.operations, in_ops))
